@@ -85,12 +85,19 @@ QueryObs(mv, q) ==
 
 SetToSeq(S) == LET RECURSIVE F(_) F(T) == IF T = {} THEN <<>> ELSE LET x == CHOOSE y \in T : TRUE IN <<x>> \o F(T \ {x}) IN F(S)
 
+(* The constructor converts t1..t3 from f32 seconds to whole nanoseconds.  n ticks (of 2^j s) are n * 5^9 * 2^(9+j) ns, which an f32 *)
+(* holds exactly only when odd(n) * 5^9 < 2^24, i.e. odd(n) <= 7; for the other moves (a boundary at 9 ticks) the boundary itself is *)
+(* rounded by up to 512 ns, which the exact family cannot predict: they are left to the recorded traces (ProfileTrace, ProfileNumTrace). *)
+RECURSIVE OddPart(_)
+OddPart(x) == IF x <= 0 THEN 1 ELSE IF x % 2 = 0 THEN OddPart(x \div 2) ELSE x
+ExactNs(mv) == \A b \in {mv.t1, mv.t2, mv.t3} : OddPart(b) <= 7
 Durs == IF Rich THEN {-1, 0, 1, 2, 3} ELSE {-1, 0, 1, 2}
 Init ==
   \E sg \in {1, -1}, vm \in {One, RI(2), RI(3)} \cup (IF Rich THEN {R(3, 2)} ELSE {}), am \in {One} \cup (IF Rich THEN {R(1, 2)} ELSE {}),
      x0 \in {Zero, RI(-5)}, k \in Durs, d2 \in Durs \cup {4}, m \in Durs, ae \in {Zero, RI(1)} :
        LET mv == Move(sg, vm, am, x0, k, d2, m, ae)
        IN  /\ CodeSign(mv) = sg                       \* the constructor picks the direction from the positions
+           /\ (Infeasible(mv) \/ ExactNs(mv))
            /\ case = [mv |-> mv, panic |-> Infeasible(mv), endkind |-> EndKind(mv),
                       queries |-> IF Infeasible(mv) THEN <<>> ELSE SetToSeq({QueryObs(mv, q) : q \in Queries(mv)})]
 Next == UNCHANGED case
